@@ -286,6 +286,8 @@ class Engine:
                     v = v.data
                 if not isinstance(v, Agg):
                     raise Unsupported(f"field projection on {type(v).__name__}")
+                if step[1] >= len(v.fields):
+                    raise Unsupported(f"field {step[1]} of {v.kind} with {len(v.fields)} fields")
                 cur = v.fields[step[1]]
             elif step[0] == "downcast":
                 v = cur.v
@@ -375,6 +377,20 @@ class Engine:
                 for part in split_top(m.group(2)):
                     _, op = part.split(":", 1)
                     caps.append(Cell(self.operand(st, frame, op)))
+            # rustc's pretty printer zips the source-level capture names with the operands and silently drops the
+            # operands beyond them (precise captures `issuer.a`, `issuer.b` count as one name): recover the dropped
+            # captures from the closure body's debug info and the creating function's variables of the same name.
+            n_up = (max(fn.upvars) + 1) if fn.upvars else len(caps)
+            cur_fn = frame.get("__fn")
+            for i in range(len(caps), n_up):
+                if i not in fn.upvars or cur_fn is None:
+                    raise Unsupported(f"closure capture {i} of {m.group(1)} cannot be recovered")
+                name, by_ref = fn.upvars[i]
+                src = cur_fn.debug.get(name) or cur_fn.debug.get(name.split("__")[0])
+                if src is None:
+                    raise Unsupported(f"closure capture {name} not found in the creating function")
+                cell = self.cell_of(st, frame, parse_place(src))
+                caps.append(Cell(Ref(cell) if by_ref else cell.v))
             dst.v = Closure(fn, Agg("closure", caps))
             return
         m = re.match(r"^([A-Za-z_][\w:<>', ]*?) \{ (.*) \}$", rhs)
@@ -455,7 +471,12 @@ class Engine:
                 m = re.match(r"^(.*?) = (.*)$", stmt)
                 if not m:
                     raise Unsupported("statement: " + stmt)
-                self.assign(st, frame, m.group(1), m.group(2))
+                try:
+                    self.assign(st, frame, m.group(1), m.group(2))
+                except Unsupported as ex:
+                    if " [in " not in str(ex):
+                        raise Unsupported(f"{ex} [in {fn.name.split('>::')[-1]} {bb}: {stmt[:160]}]")
+                    raise
             t = blk.term
             if t == "return":
                 self.stats["paths"] += 1
